@@ -74,6 +74,16 @@ TWindow ==
               <<S!LFTokensP(olf \o Tok(e.lf, RATIO)), "LFTokens">>,
               <<S!EdgeP(edgeok'), "LFEdges">> >>)
 
+\* files on disk (projection): every shank's AP file has ns rows whose sync column is 0..ns-1 and whose bytes equal the original
+\* columns of that shank followed by sync; the reconstructed file and the LF files likewise
+FinalClauses ==
+    << <<R.final.ap_rows_ok, "APFile:rows">>, <<R.final.ap_tokens_ok, "APFile:order">>,
+       <<R.final.ap_bytes_ok, "APFile:bytes">>, <<R.final.ap_meta_ok, "APFile:meta">>,
+       <<R.final.recon_bytes_ok, "Reconstruct:bytes">>, <<R.final.recon_meta_ok, "Reconstruct:meta">>,
+       <<R.final.lf_rows = S!CeilDiv(ns, RATIO), "LFFile:rows">>, <<R.final.lf_sync_ok, "LFFile:sync">>,
+       <<R.final.lf_meta_ok, "LFFile:meta">>,
+       <<R.final.lf_interior_lsb <= 1, "LFFile:interior">>, <<R.final.lf_window_lsb <= 1, "LFFile:window">> >>
+
 \* process() returned (status 1): judge the streams and the files left on disk
 TStop ==
     /\ pc = "iter" /\ pos = NEv
@@ -82,15 +92,16 @@ TStop ==
     /\ impl' = Pick(impl, << <<last = ns, "Stop">> >>)
     /\ prop' = Collect(prop, <<
           <<S!Cover', "Cover:end">>, <<S!CountP(nwin)', "Count">>,
-          <<S!APCompleteP(ap)', "APComplete">>, <<S!LFCompleteP(lf)', "LFComplete">>,
-          \* files on disk (projection): every shank's AP file has ns rows whose sync column is 0..ns-1 and whose bytes
-          \* equal the original columns of that shank followed by sync
-          <<R.final.ap_rows_ok, "APFile:rows">>, <<R.final.ap_tokens_ok, "APFile:order">>,
-          <<R.final.ap_bytes_ok, "APFile:bytes">>, <<R.final.ap_meta_ok, "APFile:meta">>,
-          <<R.final.recon_bytes_ok, "Reconstruct:bytes">>, <<R.final.recon_meta_ok, "Reconstruct:meta">>,
-          <<R.final.lf_rows = S!CeilDiv(ns, RATIO), "LFFile:rows">>, <<R.final.lf_sync_ok, "LFFile:sync">>,
-          <<R.final.lf_meta_ok, "LFFile:meta">>,
-          <<R.final.lf_interior_lsb <= 1, "LFFile:interior">>, <<R.final.lf_window_lsb <= 1, "LFFile:window">> >>)
+          <<S!APCompleteP(ap)', "APComplete">>, <<S!LFCompleteP(lf)', "LFComplete">> >> \o FinalClauses)
+
+\* the per-window instrumentation point does not exist in this code (no window events although the run returned 1): only the
+\* clauses on the files left on disk can be judged; the implementation layer is not bound (drift)
+TBlackBox ==
+    /\ pc = "new" /\ R.status = 1 /\ NEv = 0
+    /\ pc' = "done"
+    /\ impl' = "unbound:no window events"
+    /\ prop' = Collect(prop, FinalClauses)
+    /\ UNCHANGED <<ns, w, ov, first, last, iw, nwin, pfirst, plast, ap, lf, edgeok, tid, pos>>
 
 \* the run raised or returned something else than 1
 TAbnormal ==
@@ -104,7 +115,7 @@ Report ==
     /\ (prop # "" \/ impl # "") => PrintT(<<"VERDICT", tid, prop, impl, pos>>)
     /\ UNCHANGED <<ns, w, ov, first, last, iw, nwin, pfirst, plast, ap, lf, edgeok, tid, pos, prop, impl>>
 
-Next == (IF R.status # 1 THEN TAbnormal ELSE TConstruct \/ TWindow \/ TStop) \/ Report
+Next == (IF R.status # 1 THEN TAbnormal ELSE IF NEv = 0 THEN TBlackBox ELSE TConstruct \/ TWindow \/ TStop) \/ Report
 Spec == Init /\ [][Next]_vars
 Consumed == TRUE
 =============================================================================
